@@ -1,7 +1,7 @@
 """C18 - random generation stays within the requested bounds and covers them."""
 from ..core import rng_for, rand_digits, M64, ndig, Cmd, U, I, PANIC, Problem, chk_big, BV
 
-THOROUGH_SEEDS = 12   # the thorough tier repeats its staged workload over this many derived seeds
+THOROUGH_SEEDS = 4   # the thorough tier repeats its staged workload over this many derived seeds
 RULE = ('deterministic byte-stream RNGs (scripted prefix + zero / ones / counter / splitmix tail) that log every byte handed out; '
         'the monitor decodes the same stream with an independent model: gen_biguint(n) = first ceil(n/32) little-endian u32 words '
         'with the top word shifted down, consuming exactly those bytes; bounded sampling = first candidate below the bound, '
@@ -274,6 +274,9 @@ def workload(tier, seed, scale=1.0):
         add('urange', b'', 'c', [x + 1, x], ('panic-inv',))
         add('single_u', b'', 'c', [x + 1, x], ('panic-inv',))
         add('uni_u', b'', 'c', [x, x], ('panic-empty',))
+        add('uni_u', b'', 'c', [x + 2, x], ('panic-inv',))
+        add('range_u', b'', 'c', [x + 2, x], ('panic-inv',))
+        add('urange', b'', 'c', [x + (1 << 70), x], ('panic-inv-far',))
         add('uni_u_inc', b'', 'c', [x + 1, x], ('panic-inv',))
         add('range_u', b'', 'c', [x, x], ('panic-empty',))
         add('range_u_inc', b'', 'c', [x + 1, x], ('panic-inv',))
@@ -282,6 +285,10 @@ def workload(tier, seed, scale=1.0):
             add('irange', b'', 'c', [s * x + 1, s * x], ('panic-inv',))
             add('single_i', b'', 'c', [s * x + 1, s * x], ('panic-inv',))
             add('uni_i', b'', 'c', [s * x, s * x], ('panic-empty',))
+            add('uni_i', b'', 'c', [s * x + 2, s * x], ('panic-inv',))
+            add('uni_i', b'', 'c', [abs(x) + 3, -abs(x) - 3], ('panic-inv-cross',))
+            add('range_i', b'', 'c', [s * x + 2, s * x], ('panic-inv',))
+            add('irange', b'', 'c', [abs(x) + 3, -abs(x) - 3], ('panic-inv-cross',))
             add('uni_i_inc', b'', 'c', [s * x + 1, s * x], ('panic-inv',))
             add('range_i', b'', 'c', [s * x, s * x], ('panic-empty',))
             add('range_i_inc', b'', 'c', [s * x + 1, s * x], ('panic-inv',))
